@@ -125,6 +125,7 @@ func startRaceWorker() *raceWorkerProc {
 	outp, _ := cmd.StdoutPipe()
 	eb := &tailBuf{max: 1 << 18}
 	cmd.Stderr = eb
+	cmd.WaitDelay = 2 * time.Second // a grandchild may keep the stderr pipe open after the worker was killed
 	if err := cmd.Start(); err != nil {
 		panic(err)
 	}
